@@ -55,8 +55,10 @@ class Server:
         self.capacity = capacity
         self.proc = None
         last = None
-        for attempt in range(attempts):
-            p = port + attempt
+        for attempt in range(attempts + 6):
+            # the block given by the caller first; then ports the operating system says are free right now (several runs of one
+            # check at the same time -- sweeps over seeded changes, mutation probes -- would otherwise exhaust a shard's block)
+            p = port + attempt if attempt < attempts else self._os_free_udp_port()
             proc = mp.get_context("fork").Process(target=_serve, args=(p, capacity, prefix), daemon=True)
             proc.start()
             api.publish_client_port(p)
@@ -71,6 +73,17 @@ class Server:
                 pass
             proc.join(5)
         raise HarnessError(f"real shm server did not come up on ports {port}..{port + attempts - 1} (exit {last})")
+
+    @staticmethod
+    def _os_free_udp_port() -> int:
+        import socket
+
+        s = socket.socket(socket.AF_INET, socket.SOCK_DGRAM)
+        try:
+            s.bind(("localhost", 0))
+            return s.getsockname()[1]
+        finally:
+            s.close()
 
     @staticmethod
     def _raw(msg, timeout: float = 3.0):
